@@ -207,8 +207,8 @@ def frame_obligations(V, X, c, ev0, H0, hp, rr, pkg):
                     continue   # only stack locals of that type were allocated
                 V.add_obl('frame', newv == oldv, rr, label='alloc.' + name, text='allocates clause does not list ' + hk[1])
             continue
-        if hk[0] == 'ghost' and str(hk[1]).startswith('visited_'):
-            continue       # bookkeeping of a range-over-map loop (which keys were delivered): not program state
+        if hk[0] == 'ghost' and (str(hk[1]).startswith('visited_') or str(hk[1]).startswith('ncalls_') or str(hk[1]).startswith('fncalls_') or str(hk[1]).startswith('fnarg')):
+            continue       # verification bookkeeping (keys delivered by a map range, call counters of flag countcalls): not program state
         if hk[0] == 'g' or (hk[0] == 'ghost' and len(hk) <= 3):
             if hk not in targets:
                 V.add_obl('frame', newv == oldv, rr, label=name, text='not in assigns')
@@ -309,7 +309,7 @@ def solve_text(smt2, timeout, workdir, tag, order=('z3-5.1', 'z3-4.8', 'cvc5'), 
     use_inproc = bool(rest) and rest[0] == 'z3-5.1'
     if use_inproc:
         rest = rest[1:]
-        res, dt, model = run_inprocess(smt2, min(ft, 4), ematch_only=True)
+        res, dt, model = run_inprocess(smt2, min(ft, 8), ematch_only=True)
         details['z3-5.1/ematch'] = (res, round(dt, 3))
         if res == 'unsat':
             verdict, winner = res, 'z3-5.1'
